@@ -55,7 +55,7 @@ func c19LegacySetup(e *c19Env) *verifStream {
 		opts = append(opts, WithHTTPBeforeRequest(func(ctx context.Context, r *http.Request) error {
 			e.beforeRuns++
 			e.beforeTok = append(e.beforeTok, ctx.Value(verifCtxKey{}))
-			if e.before == 2 {
+			if e.before == 2 || (e.before == 3 && e.armed) {
 				return errC19Before
 			}
 			return nil
@@ -94,7 +94,7 @@ func H_C19_legacy() {
 	e.hdrA = vBool("hdrA")
 	e.hdrB = vBool("hdrB")
 	e.customPath = vBool("customPath")
-	e.before = vChoice("before", 3)
+	e.before = vChoice("before", 4)
 	op := vChoice("op", 4) // 0 handshake only, 1 request, 2 notification, 3 answer to a server-issued request
 	stream := c19LegacySetup(e)
 	hctx := context.WithValue(context.Background(), verifCtxKey{}, "handshake")
@@ -113,10 +113,35 @@ func H_C19_legacy() {
 	c19LegacyCheck(e, e.net.sent[0], true)
 	c19LegacyCheck(e, e.net.sent[1], false)
 	c19LegacyCheck(e, e.net.sent[2], false)
-	if e.before == 1 {
+	if e.before == 1 || e.before == 3 {
 		vAssert("before-once-per-request", e.beforeRuns == 3)
 	}
 	n0, b0 := len(e.net.sent), e.beforeRuns
+	if e.before == 3 {
+		// from now on the before-request function refuses: the operation fails and nothing more is sent
+		e.armed = true
+		octx := context.WithValue(context.Background(), verifCtxKey{}, "operation")
+		switch op {
+		case 0:
+			vReach("handshake-only")
+			return
+		case 1:
+			_, err := e.client.CallTool(octx, &CallToolRequest{Params: CallToolParams{Name: "t"}})
+			vAssert("refused-request-fails", vAnd(err != nil, errors.Is(err, errC19Before)))
+		case 2:
+			err := e.client.SendRootsListChangedNotification(octx)
+			vAssert("refused-notification-fails", vAnd(err != nil, errors.Is(err, errC19Before)))
+		default:
+			stream.push([]byte("event: message\ndata: {\"jsonrpc\":\"2.0\",\"id\":9,\"method\":\"roots/list\"}\n\n"))
+			vQuiesce()
+			time.Sleep(100 * time.Millisecond)
+			vQuiesce()
+		}
+		vAssert("nothing-sent-when-before-fails", len(e.net.sent) == n0)
+		vAssert("before-ran-once-for-the-refused-request", e.beforeRuns == b0+1)
+		vReach("refused")
+		return
+	}
 	octx := context.WithValue(context.Background(), verifCtxKey{}, "operation")
 	switch op {
 	case 0:
